@@ -15,6 +15,7 @@ F_DROP = 1024
 F_COMMENTS = 2048
 F_MODIFIED = 4096
 F_KEYSTRVAL = 8192
+F_SIMPLE = 1 << 24      # not a library flag: asks the executor for a CFG_SIMPLE_* option (value in an application variable)
 
 CB_PARSE = 1
 CB_VALID = 2
@@ -43,6 +44,11 @@ def o_bool(n, d=0, f=0, cb=0):
 
 def o_str(n, d=None, f=0, cb=0):
     return {"k": "str", "n": n, "f": f, "d": d, "cb": cb}
+
+
+def o_simple(kind, n, d):
+    """CFG_SIMPLE_INT/FLOAT/BOOL/STR: d is the value the application put into its variable before cfg_init"""
+    return {"k": kind, "n": n, "f": F_SIMPLE, "d": d, "cb": 0}
 
 
 def o_list(kind, n, d=None, f=0, cb=0):
@@ -160,7 +166,7 @@ def _parsed_default(kind, draw):
 
 @st.composite
 def schemas(draw, depth=0, max_depth=3, nocase=False, allow_func=True, allow_ptr=True, allow_deprecated=True,
-            allow_keystrval=True, allow_single_title=True, cb_parse=False):
+            allow_keystrval=True, allow_single_title=True, cb_parse=False, allow_simple=False):
     n = draw(st.integers(1, 6 if depth == 0 else 4))
     names = draw(st.lists(st.sampled_from(NAME_POOL), min_size=n, max_size=n,
                           unique_by=(lambda x: x.lower()) if nocase else (lambda x: x)))
@@ -179,6 +185,10 @@ def schemas(draw, depth=0, max_depth=3, nocase=False, allow_func=True, allow_ptr
             fl |= F_DEPRECATED | (F_DROP if draw(st.booleans()) else 0)
         if k in ("int", "float", "bool", "str") and draw(st.integers(0, 5)) == 0:
             fl |= F_NODEFAULT
+        if allow_simple and depth == 0 and k in ("int", "float", "bool", "str") and draw(st.integers(0, 2)) == 0:
+            dv = {"int": [0, 5, -7], "float": ["0.0", "1.5", "-2.25"], "bool": [0, 1], "str": [None, "dflt", "", "two words"]}[k]
+            opts.append(o_simple(k, name, draw(st.sampled_from(dv))))
+            continue
         if k == "int":
             opts.append(o_int(name, draw(st.sampled_from([0, 5, -7, 1000000])), fl))
         elif k == "float":
